@@ -35,7 +35,7 @@ def main(tier):
             return "repeating the history grew the heap: %d live library blocks at the first matrix creation, %d at its repetition" % (mats[0]["live"], mats[half]["live"])
         return None
     wd = os.path.join(ck.dir, "api")
-    hs, r = api.enumerate_histories(wd, 4 if quick else 5, ["mat", "vals", "gssv", "gssvx", "destroy", "singular", "user", "query", "equil", "trans"], name="C17")
+    hs, r = api.enumerate_histories(wd, 4 if quick else 5, ["mat", "vals", "gssv", "gssvx", "destroy", "singular", "user", "query", "equil", "trans"], simulate=None if quick else 4000, name="C17")
     ck.model(r["distinct"], r["generated"])
     hs = [h for h in hs if h[0]["call"] == "mat" and h[-1]["call"] == "destroy" and sum(1 for c in h if c["call"] == "mat") == 1]
     ck.notes["histories_enumerated_ending_with_destroy"] = len(hs)
